@@ -201,6 +201,9 @@ def work(chunk):
                             np.broadcast_shapes(*shapes)
                         except ValueError:
                             viol(call, key, f"function received tensors that are not broadcast-compatible: {shapes}")
+            elif got[0] == "raise" and exp[0] == "value" and got[1] in ("CallOperationError", "AssertionError"):
+                viol(call, key, f"a well-behaved element-wise numpy function made the call fail with {got[1]} although the loop semantics gives {np.asarray(exp[1]).ravel()[:4].tolist()}")
+            if got[0] == "value" and exp[0] == "value":
                 if len(args) == 2:
                     for h in [(0,), (5,), (5.0,), (True,), (5, 5.0), (5.0, 5), (1, True), (True, 1), (5, 0, 5.0)]:
                         fnew = einx.numpy.adapt_numpylike_elementwise(elw_kw)
